@@ -50,6 +50,9 @@ type EQuant struct {
 	Forall bool
 	Vars   []QVar
 	Body   Expr
+	// Pats: optional explicit instantiation patterns, Dafny style: forall k int :: {f(k), g(k)} {h(k)} body
+	// (each brace group is one multi-pattern; groups are alternatives). Without them the solver chooses.
+	Pats [][]Expr
 }
 type ELet struct {
 	Name string
@@ -112,6 +115,8 @@ type FuncContract struct {
 	Callers []*CallersClause
 	// MoreFiles: further contract files that add clauses to this function
 	MoreFiles []string
+	// loop-carried ghost variables per loop ordinal ("loop N modifies g, h"): havocked at the loop head
+	LoopGhosts map[int][]string
 }
 
 type SpecFunc struct {
@@ -168,6 +173,7 @@ var clauseKeywords = map[string]bool{
 	"sweep": true, "cover": true, "replay_hint": true, "never_writes": true, "frame_only": true, "reveal": true, "iface_calls_only": true, "direct_calls_only": true,
 	"requires_held": true, "writers": true, "never_calls": true, "spawn_never_writes": true, "unshared_receiver": true, "sync": true, "owner_lock": true, "complete": true,
 	"rep_invariant": true, "nested_closedness": true, "dominated": true, "writes_unconditionally": true, "reads_only": true, "deterministic": true,
+	"lean_invariants": true,
 }
 
 // ParseContractFile reads one file and adds its declarations to cs. pkgKey is
@@ -463,6 +469,16 @@ func (cs *ContractSet) ParseContractFile(path string, pkgPath string) error {
 						return err
 					}
 					lc.Decreases = &c
+				case "modifies":
+					// loop-carried ghost variables: arbitrary at the head of an arbitrary iteration (constrained by the invariant only)
+					if cur.LoopGhosts == nil {
+						cur.LoopGhosts = map[int][]string{}
+					}
+					for _, g := range strings.Split(r3, ",") {
+						if g = strings.TrimSpace(g); g != "" {
+							cur.LoopGhosts[n] = append(cur.LoopGhosts[n], g)
+						}
+					}
 				case "bounded":
 					k, err := strconv.Atoi(strings.TrimSpace(r3))
 					if err != nil {
@@ -577,10 +593,14 @@ func (cs *ContractSet) ParseContractFile(path string, pkgPath string) error {
 				cur.Flags["trusted"] = "1"
 				cs.Trusted = append(cs.Trusted, fmt.Sprintf("trusted contract %s (%s:%d)", cur.Key, path, l.no))
 			default:
-				cur.Flags[word] = strings.TrimSpace(rest)
-				if rest == "" {
-					cur.Flags[word] = "1"
+				val := strings.TrimSpace(rest)
+				if val == "" {
+					val = "1"
 				}
+				if prev, ok := cur.Flags[word]; ok && prev != val && len(cur.MoreFiles) > 0 {
+					return fmt.Errorf("%s:%d: %s of %s is already set to %q in %s", path, l.no, word, cur.Key, prev, cur.File)
+				}
+				cur.Flags[word] = val
 			}
 		}
 	}
@@ -882,6 +902,26 @@ func (p *eparser) parseExpr(minPrec int) (Expr, error) {
 			p.next()
 			p.next() // ::
 			break
+		}
+		for p.peek().t == token.LBRACE {
+			p.next()
+			var group []Expr
+			for {
+				pe, err := p.parseExpr(0)
+				if err != nil {
+					return nil, err
+				}
+				group = append(group, pe)
+				if p.peek().t == token.COMMA {
+					p.next()
+					continue
+				}
+				break
+			}
+			if p.next().t != token.RBRACE {
+				return nil, fmt.Errorf("quantifier pattern: expected }")
+			}
+			q.Pats = append(q.Pats, group)
 		}
 		body, err := p.parseExpr(0)
 		if err != nil {
